@@ -244,6 +244,12 @@ bool run_str(const StrCase &c, std::string &msg) {
     if (NR(c.ops + 1, c.mem) != 1) FAIL("needs_rehash != 1 for a different opslimit");
     if (NR(c.ops, c.mem + 1024) != 1) FAIL("needs_rehash != 1 for a different memlimit");
     if (c.mem >= 9216 && NR(c.ops, c.mem - 1024) != 1) FAIL("needs_rehash != 1 for a smaller memlimit");
+    // limits up to the documented maxima are valid queries (the answer is "different": 1); beyond them -1
+    if (NR(c.ops, (size_t) crypto_pwhash_memlimit_max()) != 1) FAIL("needs_rehash(memlimit = crypto_pwhash_MEMLIMIT_MAX) != 1");
+    if (NR(c.ops, (size_t) 0x100000000ULL) != 1 || NR(c.ops, (size_t) 0x200000000ULL + 5) != 1) FAIL("needs_rehash(memlimit = 4 GiB / 8 GiB) != 1");
+    if (NR(0xffffffffULL, c.mem) != 1) FAIL("needs_rehash(opslimit = 2^32-1) != 1");
+    if (NR(c.ops, (size_t) 0x100000000ULL * 1024) != -1) FAIL("needs_rehash(memlimit = 2^42, above the maximum) != -1");
+    if (NR(0x100000000ULL, c.mem) != -1) FAIL("needs_rehash(opslimit = 2^32, above the maximum) != -1");
     return true;
 }
 void explore_str(Ctx &ctx) {
@@ -251,13 +257,15 @@ void explore_str(Ctx &ctx) {
     auto masks = masks08();
     Rng r = ctx.rng("c08-str");
     uint64_t idx = 0;
-    size_t n = ctx.thorough() ? 1500 : 240;
+    size_t n = ctx.thorough() ? 1500 : 400;
     for (size_t i = 0; i < n; i++) {
         int alg = 1 + (int) (i % 3);
         Bytes pw = r.bytes(i % 17 == 0 ? 0 : r.below(80)); if (pw.size() > 3 && r.below(4) == 0) pw[1] = 0;
         StrCase c{ alg, pw, r.bytes_class(alg == 3 ? 32 : 16, r.below(10) == 0 ? (int) r.below(5) : 0), alg == 3 ? (uint64_t) 32768 << r.below(3) : (alg == 1 ? 3 + r.below(2) : 1 + r.below(3)),
                    alg == 3 ? (size_t) 16777216 : (size_t) (8192 + 1024 * r.below(120) + r.below(1024)), masks[i % masks.size()] };
-        if (alg == 3) { uint32_t nl, rr, p; ref::scrypt_pickparams(c.ops, c.mem, nl, rr, p); if (((uint64_t) 1 << nl) * rr * p > 65536) { c.ops = 32768; c.mem = 16777216; } if (i % 9 != 0 && !ctx.thorough()) continue; }
+        // small memory limit with a larger operations limit: p takes values whose $7$ digits cover the top of the alphabet (63 = 'z', 64, 127, ...)
+        if (alg == 3 && i % 2 == 0) { static const uint32_t PS[] = { 63, 64, 127, 128, 255, 62, 65 }; c.mem = 32768; c.ops = (uint64_t) 1024 * PS[(i / 2) % 7] + r.below(1024); }
+        if (alg == 3) { uint32_t nl, rr, p; ref::scrypt_pickparams(c.ops, c.mem, nl, rr, p); if (((uint64_t) 1 << nl) * rr * p > 65536) { c.ops = 32768; c.mem = 16777216; } if ((i / 3) % 2 != 0 && !ctx.thorough()) continue; }   // (alg == 3 <=> i % 3 == 2: a filter on i % 9 == 0 would never let a scrypt case through)
         if (!ctx.mine(idx++)) continue;
         exec_case(ctx, c, run_str, mix64(mix64(alg, c.ops), mix64(c.mem, hash_bytes(c.salt.data(), c.salt.size()))), true);
     }
@@ -271,14 +279,16 @@ struct MutCase {
 bool run_mut(const MutCase &c, std::string &msg) {
     init_once(); set_mask(F_ALL);
     if (c.s.find('\0') != std::string::npos) return true;
-    if (too_expensive(c.s)) return true;
+    bool costly = too_expensive(c.s);          // verification would hash with these parameters: skipped; needs_rehash only parses and is always checked
     Bytes sz(c.s.begin(), c.s.end()); sz.push_back(0);
     XBuf sb(sz, 3), pw(c.pw, 1);
     bool is_scrypt = c.s.compare(0, 3, "$7$") == 0;
     if (is_scrypt) {
-        int v = crypto_pwhash_scryptsalsa208sha256_str_verify((const char *) sb.p, (const char *) pw.p, c.pw.size());
-        bool mv = ref::scrypt_verify_string(c.s, c.pw, false);
-        if ((v == 0) != mv) FAIL("scrypt str_verify returned %d, model verdict %s for '%s' (%s)", v, mv ? "match" : "no match", c.s.c_str(), c.how.c_str());
+        if (!costly) {
+            int v = crypto_pwhash_scryptsalsa208sha256_str_verify((const char *) sb.p, (const char *) pw.p, c.pw.size());
+            bool mv = ref::scrypt_verify_string(c.s, c.pw, false);
+            if ((v == 0) != mv) FAIL("scrypt str_verify returned %d, model verdict %s for '%s' (%s)", v, mv ? "match" : "no match", c.s.c_str(), c.how.c_str());
+        }
         int nr = crypto_pwhash_scryptsalsa208sha256_str_needs_rehash((const char *) sb.p, c.ops, c.mem);
         // structural malformation of the parameter part / length => -1; otherwise compare the derived (N, r, p)
         bool structural_ok = c.s.size() == 101 && ref::scrypt_b64_value(c.s[3]) >= 0;
@@ -288,17 +298,21 @@ bool run_mut(const MutCase &c, std::string &msg) {
         if (ps.ok) { uint32_t nl, rr, p; ref::scrypt_pickparams(c.ops, c.mem, nl, rr, p); int want = (nl != ps.N_log2 || rr != ps.r || p != ps.p) ? 1 : 0; if (nr != want) FAIL("scrypt needs_rehash returned %d, expected %d", nr, want); }
         return true;
     }
+    ref::Argon2Str ps = ref::argon2_parse_string(c.s);
+    if (!costly) {
     int v = crypto_pwhash_str_verify((const char *) sb.p, (const char *) pw.p, c.pw.size());
     bool mv = ref::argon2_verify_string(c.s, c.pw);
     if ((v == 0) != mv) FAIL("crypto_pwhash_str_verify returned %d, model verdict %s for '%s' (%s)", v, mv ? "match" : "no match", c.s.c_str(), c.how.c_str());
-    ref::Argon2Str ps = ref::argon2_parse_string(c.s);
     // specific verifiers insist on their own variant
     if (c.s.compare(0, 10, "$argon2id$") == 0 || c.s.compare(0, 9, "$argon2i$") == 0) {
         int vi = crypto_pwhash_argon2i_str_verify((const char *) sb.p, (const char *) pw.p, c.pw.size()), vid = crypto_pwhash_argon2id_str_verify((const char *) sb.p, (const char *) pw.p, c.pw.size());
         if ((vi == 0) != (mv && ps.type == 1) || (vid == 0) != (mv && ps.type == 2)) FAIL("variant-specific str_verify disagrees with the model for '%s' (%s)", c.s.c_str(), c.how.c_str());
     }
+    }
     int nr = crypto_pwhash_str_needs_rehash((const char *) sb.p, c.ops, c.mem);
-    int want = (!ps.ok || !ps.params_ok || c.s.size() >= crypto_pwhash_STRBYTES) ? -1 : ((ps.t != c.ops || ps.m != c.mem / 1024) ? 1 : 0);
+    // limits are given in bytes; memlimit / 1024 and opslimit must fit 32 bits (crypto_pwhash_MEMLIMIT_MAX = (2^32 - 1) KiB), else EINVAL
+    bool limits_ok = c.ops <= 0xffffffffULL && (uint64_t) c.mem / 1024 <= 0xffffffffULL;
+    int want = (!limits_ok || !ps.ok || !ps.params_ok || c.s.size() >= crypto_pwhash_STRBYTES) ? -1 : ((ps.t != c.ops || ps.m != c.mem / 1024) ? 1 : 0);
     if (nr != want) FAIL("crypto_pwhash_str_needs_rehash returned %d, expected %d for '%s' (%s)", nr, want, c.s.c_str(), c.how.c_str());
     return true;
 }
@@ -337,17 +351,36 @@ std::string mutate(const std::string &base, int kind, uint64_t sel, std::string 
 
 void explore_mut(Ctx &ctx) {
     init_once();
-    int cases = ctx.thorough() ? 200000 : 16000;
+    int cases = ctx.thorough() ? 200000 : 40000;
     rc_explore<MutCase>(ctx, "c08-mut", cases, 100, [&]() {
         MutCase c;
         int src = *rc::gen::weightedElement<int>({ { 4, 0 }, { 3, 1 }, { 2, 2 } });    // 0 argon2 (foreign params), 1 argon2 standard shape, 2 scrypt
         uint64_t seed = *rc::gen::arbitrary<uint64_t>(); Rng r(seed);
         c.pw = r.bytes(r.below(24));
         std::string base;
-        if (src == 2) {
+        if (src == 2 && *rc::gen::inRange(0, 3) == 0) {
+            // parameter digits over the whole $7$ alphabet (every digit value 0..63 in every position): too costly to verify, but
+            // needs_rehash only decodes.  Half of the time the string carries exactly the parameters the queried limits select.
+            c.ops = (uint64_t) 32768 << *rc::gen::inRange(0, 18); c.ops += (uint64_t) *rc::gen::inRange(0, 4) * (c.ops / 4);
+            c.mem = (size_t) 16384 << *rc::gen::inRange(0, 17);
+            uint32_t nl, rr, p; ref::scrypt_pickparams(c.ops, c.mem, nl, rr, p);
+            if (*rc::gen::inRange(0, 2)) {
+                uint32_t d = (uint32_t) *rc::gen::inRange(0, 64), k = (uint32_t) *rc::gen::inRange(0, 5);
+                switch (*rc::gen::inRange(0, 3)) { case 0: nl = d; break; case 1: rr = (rr & ~(63u << (6 * k))) | (d << (6 * k)); break; default: p = (p & ~(63u << (6 * k))) | (d << (6 * k)); break; }
+            }
+            base = ref::scrypt_encode_string_raw(nl, rr, p, r.bytes(32), r.bytes(32));
+        } else if (src == 2) {
             uint32_t nl = 1 + (uint32_t) *rc::gen::inRange(0, 6), rr = (uint32_t) *rc::gen::element(1, 2, 8), p = (uint32_t) *rc::gen::inRange(1, 3);
             base = ref::scrypt_encode_string(nl, rr, p, r.bytes(32), c.pw);
             c.ops = 32768; c.mem = 16777216;
+        } else if (*rc::gen::inRange(0, 8) == 0) {
+            // Argon2 strings with large m / t (decoded, never hashed) queried with limits up to and beyond crypto_pwhash_MEMLIMIT_MAX
+            int type = *rc::gen::element(1, 2);
+            uint64_t m = *rc::gen::element<uint64_t>(8, 2048, 4194303, 4194304, 8388608, 0x7fffffffULL, 0xfffffffeULL, 0xffffffffULL), t = *rc::gen::element<uint64_t>(1, 3, 7, 0x7fffffffULL, 0xffffffffULL);
+            Bytes salt = r.bytes(16), tag = r.bytes(32);
+            base = ref::argon2_encode_string(type, (uint32_t) m, (uint32_t) t, 1, salt, tag);
+            c.ops = *rc::gen::elementOf(std::vector<uint64_t>{ t, t, t + 1, 0xffffffffULL, 0x100000000ULL });
+            c.mem = (size_t) *rc::gen::elementOf(std::vector<uint64_t>{ m * 1024, m * 1024 + 1023, (m + 1) * 1024, 0xffffffffULL * 1024, 0xffffffffULL * 1024 + 1023, 0x100000000ULL * 1024, 0x100000000ULL * 1024 * 4 });
         } else {
             int type = *rc::gen::element(1, 2);
             uint32_t p = src == 0 ? (uint32_t) *rc::gen::inRange(1, 5) : 1;
